@@ -467,7 +467,6 @@ func (w *World) Exec(a string, args M) M {
 // makers paid, from the order records, pool reserves and dust collector): an observation used to key the
 // known amm non-conservation finding; TLC re-derives the same quantity from the two states (Conf_Residue).
 func (w *World) observeMatch(pre, post M) {
-	type key struct{ app, id int64 }
 	ord := func(st M) map[[3]int64]M {
 		m := map[[3]int64]M{}
 		for _, o := range st["orders"].([]M) {
@@ -529,11 +528,9 @@ func (w *World) observeMatch(pre, post M) {
 			xb += db
 			xq += dq
 		}
-		_ = quote
+		// the fixture's pairs of one app have different quote denoms, so the dust delta in the quote denom belongs to this pair
 		dust := fmt.Sprintf("dust_%d", app)
 		xq += bal(post, dust, quote) - bal(pre, dust, quote)
-		// several pairs of one app may share the quote denom: the dust delta is attributed to the pair only
-		// when it is the app's only pair with that quote denom that changed; otherwise it is recorded as is
 		if xb != 0 || xq != 0 {
 			c := w.Xs[[2]int64{app, id}]
 			w.Xs[[2]int64{app, id}] = [2]int64{c[0] + xb, c[1] + xq}
